@@ -100,6 +100,72 @@ def _combine_case(args):
     return out
 
 
+def _oracle_utc_series(tz, local_index, values, not_before=None):
+    """{utc instant (naive): value} of a local hourly series by the pytz-table oracle; skipped local hours are reported apart"""
+    exp, floating = {}, 0.0
+    for t, v in zip(local_index, values):
+        inst, gap = to_utc_oracle(tz, t)
+        if not_before is not None and inst < not_before: continue
+        if gap is None: exp[inst] = exp.get(inst, 0.0) + v
+        else: floating += v
+    return exp, floating
+
+
+def _utc_of(up):
+    r = up.utc_hourly_usage_journey_starts
+    idx = [t.tz_convert("UTC").tz_localize(None).to_pydatetime() for t in r.value.index]
+    return dict(zip(idx, [float(x) for x in r.value["value"].values._data]))
+
+
+def _system_case(args):
+    """the conversion as the model uses it: the UTC series of every usage pattern of a computed system, as built, after the pattern is
+    moved to a country in another zone, and (daylight-saving topologies) while a simulation dated at each hour is switched on"""
+    tname, mode, arg = args
+    out = {"case": f"system|{tname}|{mode}|{arg}", "status": "ok", "fails": []}
+    try:
+        from . import sim as SIM
+        H.deterministic_ids(12)
+        T = H.topologies(); spec = T[tname]
+        b = H.build(spec)
+        f = []
+        def check(upname, tzname, label, not_before=None):
+            up = b[upname]; tz = pytz.timezone(H.TZ[tzname])
+            loc = up.hourly_usage_journey_starts.value
+            exp, floating = _oracle_utc_series(tz, [t.to_pydatetime() for t in loc.index], [float(x) for x in loc["value"].values._data], not_before)
+            got = _utc_of(up)
+            if not H.close(sum(got.values()), sum(exp.values()) + floating, 1e-9, 1e-9) and not_before is None: f.append(f"{label}:total-not-preserved:{upname}")
+            missing = [k for k in exp if k not in got or got[k] < exp[k] - 1e-9]
+            if missing: f.append(f"{label}:traffic-missing-at:{upname}:{sorted(missing)[:2]}")
+            early = [k for k in got if not_before is not None and k < not_before]
+            if early: f.append(f"{label}:traffic-before-the-simulation-date:{upname}:{sorted(early)[:2]}")
+            extra = sum(v - exp.get(k, 0.0) for k, v in got.items())
+            if not H.close(extra, floating, 1e-9, 1e-9): f.append(f"{label}:traffic-invented-or-lost:{upname}:{extra - floating:+.3f}")
+        if mode == "as-built":
+            for upname, d in spec["ups"].items():
+                if upname in spec["system"]["ups"]: check(upname, spec["countries"][d["country"]]["tz"], "as-built")
+        elif mode == "country-switch":
+            upname, cname = arg
+            b[upname].country = b[cname]
+            check(upname, spec["countries"][cname]["tz"], f"after {upname}.country->{cname}")
+        elif mode == "simulation":
+            dname = arg
+            date = SIM.dates_for(b).get(dname)
+            if date is None: out["status"] = "skip"; return out
+            mk, _ = SIM.change_lists(b, spec)["up.devices+=dev"]
+            simu = H.ModelingUpdate(mk(b), date)
+            simu.set_updated_values()
+            nb = date.astimezone(pytz.utc).replace(tzinfo=None)
+            for upname, d in spec["ups"].items():
+                if upname in spec["system"]["ups"]: check(upname, spec["countries"][d["country"]]["tz"], f"simulated from {dname}", not_before=nb)
+            simu.reset_values()
+        out["fails"] = f
+        if f: out["status"] = "fails"
+    except Exception as ex:
+        if H.is_float_cancellation_rejection(ex): out["status"] = "ok"
+        else: out["status"] = "harness-error"; out["error"] = traceback.format_exc()[-700:]
+    return out
+
+
 def transitions_between(tz, lo, hi):
     if not hasattr(tz, "_utc_transition_times"): return []
     return [t for t in tz._utc_transition_times if lo <= t <= hi]
@@ -134,6 +200,17 @@ def run(tier, seed, procs=16):
             citems.append((za, zb, datetime(yr, 1, 1), 24 * (366 if yr == 2024 else 365), seed))
         citems.append((za, zb, datetime(2025, 3, 28), 96, seed)); citems.append((za, zb, datetime(2025, 10, 24), 96, seed))
     res += H.run_parallel(_combine_case, citems, procs)
+    # the conversion inside computed systems
+    T = H.topologies(); sitems = []
+    for tname, spec in T.items():
+        sitems.append((tname, "as-built", None))
+        for upname, d in spec["ups"].items():
+            if upname not in spec["system"]["ups"]: continue
+            for cname in spec["countries"]:
+                if cname != d["country"]: sitems.append((tname, "country-switch", (upname, cname)))
+        if tname.startswith("dst_"):
+            for k in range(0, 9): sitems.append((tname, "simulation", f"hour{k}" if k else "first"))
+    res += [r for r in H.run_parallel(_system_case, sitems, procs) if r["status"] != "skip"]
     viol, samples, nontrivial = [], [], set()
     for r in res:
         if r["status"] == "harness-error": raise RuntimeError("bounded harness error: " + r.get("error", ""))
@@ -147,5 +224,6 @@ def run(tier, seed, procs=16):
             "rule": "one case = (IANA zone, local start, length): a local hourly series straddling a UTC-offset transition of the zone (or an ordinary period); "
                     "result compared with an oracle computed from the pytz transition tables: strictly increasing unique UTC index, total preserved, every value at local time minus the offset in force, repeated/skipped hours merged",
             "samples": samples, "violations": viol, "exhaustive": tier == "thorough",
+            "in_systems": "UTC series of every usage pattern of every topology as built, after moving the pattern to a country in another zone, and while a simulation dated at each hour around a daylight-saving change is switched on",
             "combined": "8 zone pairs (same end offsets / different change dates, identical calendars, no-DST, fractional offsets) over whole years and 96-hour windows: a+b, b+a and sum() vs the per-timestamp sum",
             "bound": f"{len(zones)} zones ({'all common IANA zones, every transition 2010-2030' if tier == 'thorough' else '15 fixed + 25 sampled, 4 sampled transitions each'}), series of 7 to 38 hours"}
